@@ -39,8 +39,11 @@ def weight_windows(chk):
         flats = [n for n in ast.walk(fn) if isinstance(n, ast.Assign) and src(n.targets[0]) == "self._factor1.flat"]
         idxr = [n for n in fn.body if isinstance(n, ast.Assign) and src(n.targets[0]) == "idx_r"]
         okr = bool(idxr) and src(idxr[0].value) == "layout.inv_dims_order[0]"
-        chk.ob("C-sort", idxr[0] if idxr else fn, f"{cls}: idx_r = layout.inv_dims_order[0]", okr,
-               "the axis carrying r in this layout" if okr else "idx_r is not the axis of dimension 0", file=rel, func=f"{cls}.__init__")
+        badr = None
+        if idxr and not okr and isinstance(idxr[0].value, ast.Subscript) and src(idxr[0].value.value) in ("layout.inv_dims_order", "layout.dims_order"):
+            badr = f"`{src(idxr[0])}`: idx_r is not the axis carrying dimension 0 (r) in this layout"
+        chk.pat("C-sort", idxr[0] if idxr else fn, f"{cls}: idx_r = layout.inv_dims_order[0]", okr,
+                "the axis carrying r in this layout", badr, file=rel, func=f"{cls}.__init__")
         n4 = 0
         for fl in flats:
             gs = [(src(t).replace(" ", "").replace("(", "").replace(")", ""), pol) for t, pol, k in guards_of(fl)]
@@ -75,10 +78,10 @@ def weight_windows(chk):
         # shape = [1,..]; shape[idx_r] = mydrMult.size; shape[idx_v] = mydvMult.size
         t_ = src(fn).replace(" ", "").replace("\n", ";")
         oks = "shape[idx_r]=mydrMult.size" in t_ and ("shape[idx_v]=mydvMult.size" in t_) and "self._factor1=np.empty(shape)" in t_
-        chk.ob("C-axis-placement", fn, f"{cls}: broadcast shape", oks, "weights live on the r and v axes of the layout, unit extent elsewhere"
-               if oks else "broadcast shape of the weights changed", file=rel, func=f"{cls}.__init__")
+        chk.pat("C-axis-placement", fn, f"{cls}: broadcast shape", oks, "weights live on the r and v axes of the layout, unit extent elsewhere",
+                file=rel, func=f"{cls}.__init__")
         if cls != "l2" and n4 < 2:
-            chk.ob("C-axis-placement", fn, f"{cls}: two axis orders", False,
+            chk.ob("C-axis-placement", fn, f"{cls}: two axis orders", False if flats else None,
                    "the weights are filled in one C order only, whatever the order of the r and v axes in the layout", file=rel,
                    func=f"{cls}.__init__")
 
@@ -103,7 +106,8 @@ def weight_formulas(chk):
             if not asg:
                 if nm == "dvMult" and cls == "l2":
                     continue
-                chk.ob("F9-trapezoid-weights", fn, f"{cls}: {nm}", False, f"`{nm}` not defined", file=rel, func=f"{cls}.__init__")
+                chk.ob("F9-trapezoid-weights", fn, f"{cls}: {nm}", None, f"`{nm}` not defined under that name: the construction of the "
+                       "trapezoid weights was not recognised", file=rel, func=f"{cls}.__init__")
                 continue
             v = src(asg[0].value).replace(" ", "")
             want = f"np.array([{dname}[0]*0.5, *(({dname}[1:]+{dname}[:-1])*0.5), {dname}[-1]*0.5])"
@@ -126,7 +130,7 @@ def weight_formulas(chk):
             except Undecided:
                 got = None
         want = dq * dz * (sp.Rational(1, 2) if cls == "KineticEnergy" else 1)
-        ok2 = got is not None and alg_equal(got, want) and okq
+        ok2 = (got is not None and alg_equal(got, want) and okq) if got is not None else None
         chk.ob("F9-volume-factor", f2[0] if f2 else fn, f"{cls}: _factor2", ok2,
                ("1/2 " if cls == "KineticEnergy" else "") + "dq dz (uniform periodic theta and z: rectangle rule)" if ok2 else
                f"_factor2 = {got}, expected {want}; dq/dz definitions ok={okq}", file=rel, func=f"{cls}.__init__")
@@ -153,7 +157,7 @@ def weight_formulas(chk):
         else:
             okj = all(has_prod(f, "mydrMult", "my_r") and "mydvMult" in names_in(f) and "my_v" not in names_in(f) for f in fl_nodes) and len(flats) == 2
             what = "w_r r x w_v"
-        chk.ob("F9-jacobian", fn, f"{cls}: _factor1 integrand weights", okj, what if okj else f"weights are {flats}", file=rel,
+        chk.ob("F9-jacobian", fn, f"{cls}: _factor1 integrand weights", okj if flats else None, what if okj else f"weights are {flats}", file=rel,
                func=f"{cls}.__init__")
         # integrand of the norm method
         m = chk.func(rel, f"{cls}.{meth}")
@@ -193,24 +197,29 @@ def collector(chk):
     for n in ast.walk(col):
         if isinstance(n, ast.Assign) and isinstance(n.targets[0], ast.Subscript) and src(n.targets[0].value) == "self.diagnostics":
             k, slot = n.targets[0].slice.elts
+            if not isinstance(k, ast.Constant):
+                rows = None
+                break
             rows[k.value] = (src(slot), src(n.value).replace(" ", ""))
     want = {0: "t", 1: "self.l2_phi_class.l2NormSquared(phi)", 2: "self.l2_grid_class.l2NormSquared(f)", 3: "self.l1class.l1Norm(f)",
             4: "self.npart.getN(f)", 5: "f.getMin()", 6: "f.getMax()", 7: "self.KEclass.getKE(f)"}
-    ok = {k: v[1] for k, v in rows.items()} == want and len({v[0] for v in rows.values()}) == 1
+    ok = None if rows is None else ({k: v[1] for k, v in rows.items()} == want and len({v[0] for v in rows.values()}) == 1)
     chk.ob("E6-diagnostic-rows", col, "collect: rows 0..7", ok, "the eight documented quantities are written to rows 0..7 of one slot"
-           if ok else f"rows written: {rows}", file=U.DIAG, func="DiagnosticCollector.collect")
+           if ok else (f"rows written: {rows}" if rows is not None else "rows are written through a computed row index: not recognised"),
+           file=U.DIAG, func="DiagnosticCollector.collect")
     reds = []
     for c in ast.walk(red):
         if isinstance(c, ast.Call) and isinstance(c.func, ast.Attribute) and c.func.attr == "Reduce":
             s_ = c.args[0]
-            row = s_.slice.elts[0].value if isinstance(s_, ast.Subscript) and isinstance(s_.slice, ast.Tuple) else None
+            row = s_.slice.elts[0].value if isinstance(s_, ast.Subscript) and isinstance(s_.slice, ast.Tuple) and \
+                isinstance(s_.slice.elts[0], ast.Constant) else None
             op = [src(k.value) for k in c.keywords if k.arg == "op"]
             root = [src(k.value) for k in c.keywords if k.arg == "root"]
             reds.append((row, src(c.args[1]), op[0] if op else None, root[0] if root else None))
     want_r = [(1, "self.l2PhiResult", "MPI.SUM", "0"), (2, "self.l2GridResult", "MPI.SUM", "0"), (3, "self.l1Result", "MPI.SUM", "0"),
               (4, "self.nPartResult", "MPI.SUM", "0"), (5, "self.min_val", "MPI.MIN", "0"), (6, "self.max_val", "MPI.MAX", "0"),
               (7, "self.KE_val", "MPI.SUM", "0")]
-    okr = reds == want_r
+    okr = (reds == want_r) if all(r_[0] is not None for r_ in reds) and reds else None
     chk.ob("E6-diagnostic-rows", red, "reduce: op per row", okr, "sums for the four integrals and the energy, MIN/MAX for the extrema, "
            "each row into its own result array on rank 0" if okr else f"reductions: {reds}", file=U.DIAG, func="DiagnosticCollector.reduce")
     t = src(red).replace(" ", "").replace("\n", ";")
@@ -236,10 +245,18 @@ def collector(chk):
 
 
 def extrema(chk):
+    from .. import lints
     for m, neutral, op, red in (("getMin", "np.inf", "MPI.MIN", "np.amin"), ("getMax", "-np.inf", "MPI.MAX", "np.amax")):
         fn = chk.func(U.GRID, f"Grid.{m}")
+        # a query: nothing reachable from the grid is modified, so the answer does not depend on earlier requests
+        muts = lints.shared_state_mutations(fn, lambda s_: s_.startswith("self."))
+        chk.ob("E7-query-purity", muts[0][0] if muts else fn, f"Grid.{m} modifies nothing of the grid", not muts,
+               "the slice index is built in a fresh local list" if not muts else "; ".join(d for _, d in muts)[:300] +
+               " - the index list is kept by the grid: an axis fixed by an earlier request stays fixed in later ones, which then report "
+               "the extremum of the intersection of the slices", file=U.GRID, func=f"Grid.{m}")
         calls = [c for c in ast.walk(fn) if isinstance(c, ast.Call) and isinstance(c.func, ast.Attribute) and c.func.attr == "reduce"]
         bad = []
+        unknown = []
         for c in calls:
             a0 = src(c.args[0]).replace(" ", "")
             opk = [src(k.value) for k in c.keywords if k.arg == "op"]
@@ -252,21 +269,33 @@ def extrema(chk):
                     owns = False
                 if gtxt == "hasData" and not pol:
                     owns = False
+            literal = a0 in ("np.inf", "-np.inf", "0", "0.0", "np.nan", "None") or a0.lstrip("-").replace(".", "").isdigit()
             if owns:
                 if not (a0.startswith(red + "(np.real(self._f")):
-                    bad.append(f"owning arm contributes `{a0}` instead of {red}(real(local values))")
+                    if literal or a0.startswith(("np.amin(", "np.amax(", "np.min(", "np.max(")):
+                        bad.append(f"owning arm contributes `{a0}` instead of {red}(real(local values))")
+                    else:
+                        unknown.append(a0)
             else:
                 if a0 != neutral:
-                    bad.append(f"non-owning arm contributes `{a0}` instead of the neutral element {neutral}")
-        chk.ob("E7-neutral-element", fn, f"Grid.{m}: contributions of the {len(calls)} arms", not bad and len(calls) == 4,
-               f"ranks that own part of the slice contribute their local extremum, all others the neutral element {neutral}" if not bad and len(calls) == 4
-               else ("; ".join(bad) or f"{len(calls)} reduce arms found, 4 expected"), file=U.GRID, func=f"Grid.{m}")
+                    if literal:
+                        bad.append(f"non-owning arm contributes `{a0}` instead of the neutral element {neutral}")
+                    else:
+                        unknown.append(a0)
+        okn = False if bad else (True if len(calls) == 4 and not unknown else None)
+        chk.ob("E7-neutral-element", fn, f"Grid.{m}: contributions of the {len(calls)} arms", okn,
+               f"ranks that own part of the slice contribute their local extremum, all others the neutral element {neutral}" if okn
+               else ("; ".join(bad) or f"{len(calls)} reduce arm(s) found; contributions {unknown or ''} not recognised"), file=U.GRID, func=f"Grid.{m}")
         # ownership flag: latched False as soon as one fixed index is outside the local block
         inits = [n for n in ast.walk(fn) if isinstance(n, ast.Assign) and src(n.targets[0]) == "hasData"]
         loop = [n for n in ast.walk(fn) if isinstance(n, ast.For)]
         in_loop = [n for n in inits if loop and any(n in ast.walk(l) for l in loop)]
         pre = [n for n in inits if n not in in_loop]
         okl = len(pre) == 1 and src(pre[0].value) == "True" and in_loop and all(src(n.value) == "False" for n in in_loop)
+        if not inits:
+            okl = None
+        elif not okl and not (in_loop and any(src(n.value) != "False" for n in in_loop)):
+            okl = None
         chk.ob("E7-ownership-latch", fn, f"Grid.{m}: hasData", okl,
                "hasData starts True and can only be cleared inside the loop over fixed axes: a rank owns the slice iff it owns every fixed index"
                if okl else "hasData is re-assigned from the last fixed axis only: a rank that misses an earlier fixed index but owns the "
@@ -274,9 +303,9 @@ def extrema(chk):
         t = src(fn).replace(" ", "").replace("\n", ";")
         oki = "dim=self._layout.inv_dims_order[ax]" in t and "idx[dim]=(fix-self._layout.starts[dim],)" in t and \
             "if(fix>=self._layout.starts[dim]andfix<self._layout.ends[dim])" in t.replace("iffix>=", "if(fix>=").replace("ends[dim]:", "ends[dim]):")
-        chk.ob("E7-slice-index", fn, f"Grid.{m}: fixed index -> local index", oki,
-               "the fixed global index of dimension ax is looked up on the axis carrying ax and converted to a local index with that axis' start"
-               if oki else "conversion of the fixed global index changed", file=U.GRID, func=f"Grid.{m}")
+        chk.pat("E7-slice-index", fn, f"Grid.{m}: fixed index -> local index", oki,
+                "the fixed global index of dimension ax is looked up on the axis carrying ax and converted to a local index with that axis' start",
+                file=U.GRID, func=f"Grid.{m}")
 
 
 def run(chk):
